@@ -10,6 +10,8 @@ func (c *Conversation) processDisconnectedTLV(t tlv, x dataMessageExtra) (toSend
 	c.msgState = finished
 	c.smp.wipe()
 	c.ake = nil
+	// the last message of the ended session must not be resent in a later one
+	c.resend.clear()
 
 	c.keys = keyManagementContext{}
 
